@@ -117,7 +117,7 @@ func init() {
 			"compared with the reference normaliser; plus 42 non-URL strings (all ordered pairs among them and against the grid) for reflexivity/symmetry and list membership; non-trivial = pair of different presentations",
 		Assumptions: []string{"queries in one letter case (outside the stated domain otherwise)", "net/url parsing of the grid IRIs"},
 		Bound: func(tier string) string {
-			return "complete grid of 2304 IRIs: 5.3M ordered pairs x 2 scheme modes; query grid of 242 IRIs (every sequence of <= 4 parameters over x=1,x=2,y=2): 58k ordered pairs x 2 modes; membership in lists of 2..65 members (equivalent member first/last) over a 384-IRI sub-grid; scale grid of 1008 long IRIs (paths ending 64/300/1100 bytes in, queries of 17/33 parameters): 1.0M ordered pairs x 2 modes; 42 strings x (42 + 2304) pairs (same in both tiers)"
+			return "complete grid of 2304 IRIs: 5.3M ordered pairs x 2 scheme modes; host grid of 840 IRIs (IPv6 literals differing in address / case / port, explicit default ports, dot segments, query values ending in a slash): 706k ordered pairs x 2 modes; query grid of 242 IRIs (every sequence of <= 4 parameters over x=1,x=2,y=2): 58k ordered pairs x 2 modes; membership in lists of 2..65 members (equivalent member first/last) over a 384-IRI sub-grid; scale grid of 1008 long IRIs (paths ending 64/300/1100 bytes in, queries of 17/33 parameters): 1.0M ordered pairs x 2 modes; 42 strings x (42 + 2304) pairs (same in both tiers)"
 		},
 		Run: c14Run,
 	})
@@ -245,7 +245,26 @@ func c14Lists(c *engine.Ctx) {
 	}
 }
 
+// c14HostGrid: IPv6 literal hosts (differing in the address, in letter case, in the port), explicit default ports, dot segments,
+// query values that end in a slash.
+func c14HostGrid() []c14IRI {
+	var out []c14IRI
+	for _, s := range []string{"http", "https"} {
+		for _, h := range []string{"[2001:db8::1]", "[2001:db8::2]", "[2001:DB8::1]", "[2001:db8::1]:8080", "[2001:db8::1]:9090", "[::1]", "[::2]", "e.com", "e.com:443", "e.com:80"} {
+			for _, p := range []string{"/a", "/a/", "/b/../a"} {
+				for _, q := range []string{"", "?x=1&y=2", "?y=2&x=1", "?dir=/", "?dir=", "?x=/a/", "?x=/a"} {
+					for _, f := range []string{"", "#f"} {
+						out = append(out, c14IRI{s, h, p, q, f})
+					}
+				}
+			}
+		}
+	}
+	return out
+}
+
 func c14Run(c *engine.Ctx) {
+	c14RunGrid(c, c14HostGrid(), "host-grid")
 	c14RunGrid(c, c14Grid(c.Quick()), "grid")
 	c14RunGrid(c, c14ScaleGrid(), "scale-grid")
 	c14RunGrid(c, c14QueryGrid(), "query-grid")
